@@ -304,7 +304,19 @@ def run_real(case: dict):
                 except Exception:  # noqa: BLE001  (the earlier content need not fit the table)
                     pass
                 tifffile.imwrite(f, a)
-                b = CSVTracksBuilder()
+                same = (int(a.sum()) + len(case["rows"])) % 2 == 0
+                if same:
+                    # batch import with ONE builder object: the earlier array came from another path
+                    g_ = d / "earlier.tif"
+                    tifffile.imwrite(g_, np.flip(a, axis=-1).copy())
+                    b = CSVTracksBuilder()
+                    b.prepare(df)
+                    try:
+                        b.build(df, g_)
+                    except Exception:  # noqa: BLE001
+                        pass
+                else:
+                    b = CSVTracksBuilder()
                 b.prepare(df)
                 tracks = b.build(df, f)
                 out = np.asarray(tracks.segmentation)
